@@ -179,8 +179,44 @@ def run_writekinds(chk, F, G_, parts=("collect", "lvalue")):
         g, _ = G.gated(pseudo, ("expr", "[0]"), LVALUE, True, al)
         if g is not None:
             lv.update(labels)
+    # no accepting arm before the l-value gate: in the if / else-if chain of a write kind, every arm that precedes the
+    # arm testing isModifiableLValue(expr[0]) must itself report an error on every path (an arm that can complete
+    # silently - "doubles are fine" - accepts the write without the gate ever being evaluated)
+    bypass = {}
+    if "lvalue" in parts:
+        def always_reports(b):
+            if b is None:
+                return False
+            if b.get("k") == "block":
+                return any(always_reports(x) for x in b.get("s", []))
+            if b.get("k") == "if":
+                return b.get("else") is not None and always_reports(b["then"]) and always_reports(b["else"])
+            if b.get("k") == "call":
+                return (b.get("name") or "") in ("handleError", "handle_error")
+            if b.get("k") in ("return", "throw"):
+                return any(c.get("name") in ("handleError", "handle_error") for c in calls(b))
+            return any(c.get("name") in ("handleError", "handle_error") for c in calls(b)) and b.get("k") not in (
+                "for", "while", "rangefor", "switch")
+        for labels, stmts in ccases:
+            if not (set(labels) & (akinds | incdec)):
+                continue
+            for st in stmts:
+                if st.get("k") != "if":
+                    continue
+                chain, n_ = [], st
+                while isinstance(n_, dict) and n_.get("k") == "if":
+                    chain.append((n_["c"], n_["then"]))
+                    n_ = n_.get("else")
+                gi = [i for i, (c_, _) in enumerate(chain) if "isModifiableLValue" in short(c_) or "isLValue" in short(c_)]
+                if not gi:
+                    continue
+                for i, (c_, b_) in enumerate(chain[:gi[0]]):
+                    if not always_reports(b_):
+                        for lb in labels:
+                            bypass[lb] = short(c_)[:70]
     for k in sorted(akinds | incdec):
         if "collect" in parts:
+
           chk.ob(rid, "collect|%s" % k, k in writes,
                "expression kind %s is created by the grammar as a write but collect_possible_writes does not record "
                "its target: a guard/invariant/initialiser using it is accepted" % k,
@@ -189,6 +225,10 @@ def run_writekinds(chk, F, G_, parts=("collect", "lvalue")):
           chk.ob(rid, "lvalue|%s" % k, k in lv,
                "expression kind %s is created by the grammar as a write but checkExpression does not require a "
                "modifiable l-value for it: constants can be written" % k, "%s:%s" % (cfn["file"], cfn["line"]))
+          chk.ob(rid, "lvalue|%s|no-bypass" % k, k not in bypass,
+               "checkExpression(%s): the arm `if (%s)` precedes the isModifiableLValue test and can complete without "
+               "reporting an error, so a write whose target satisfies it is accepted without the l-value gate (a "
+               "constant of that shape can be written)" % (k, bypass.get(k)), "%s:%s" % (cfn["file"], cfn["line"]))
     if "collect" not in parts:
         return akinds | incdec
     # function calls: changes of the callee and arguments bound to non-const reference parameters
@@ -976,3 +1016,42 @@ def run_ownlocals(chk, F, CG, fields=("changes",), rid="R-OWNLOCALS"):
         if n_erase == 0:
             chk.note("TypeChecker::visitFunction removes nothing from function_t::%s (over-approximation: locals count "
                      "as external)" % fld)
+
+
+def run_block_locals(chk, F, CG, rid="R-VISITOR"):
+    """ExpressionVisitor::visitBlockStatement visits the initialiser of EVERY local variable of the block: the only
+    admissible filters are `the symbol has user data` and `the initialiser is not empty`.  A filter on the type of the
+    symbol (scalar kinds only, say) hides the initialisers of the other locals from the may-read / may-write
+    computation."""
+    chk.rule(rid, "for every concrete Statement class and every field of type expression_t / unique_ptr<Statement> / "
+                  "container of statements / frame, the visit method CollectChangesVisitor and "
+                  "CollectDependenciesVisitor inherit reaches that field")
+    fn = F.fn("UTAP::ExpressionVisitor::visitBlockStatement")
+    loops = [n for n in walk(fn["body"]) if n.get("k") in ("rangefor", "for") and
+             any(c.get("name") == "visitExpression" for c in calls(n))]
+    if not loops:
+        raise AnalysisBroken("ExpressionVisitor::visitBlockStatement has no loop visiting initialisers")
+    TYPE_PRED = ("is", "get_kind", "is_integral", "is_integer", "is_array", "is_record", "is_clock", "is_double",
+                 "is_scalar", "is_constant", "is_boolean", "isBoolean", "is_string", "is_channel", "strip", "strip_array")
+    preds = []
+    seen = set()
+
+    def scan(n, depth, where):
+        for c in calls(n):
+            nm = c.get("name")
+            if nm in TYPE_PRED and (c.get("cls") or "").endswith("type_t"):
+                preds.append("%s() in %s" % (nm, where))
+            if nm == "visitExpression" or depth >= 2:
+                continue
+            for t in CG.targets(c):
+                if t.get("body") is None or t["q"] in seen or not (t.get("file") or "").endswith(("statement.cpp", "statement.h")):
+                    continue
+                seen.add(t["q"])
+                scan(t["body"], depth + 1, t["q"].split("::")[-1])
+    for lp in loops:
+        scan(lp, 0, "visitBlockStatement")
+    chk.ob(rid, "BlockStatement|every-local-initialiser", not preds,
+           "ExpressionVisitor::visitBlockStatement selects the local variables whose initialiser it visits by their type "
+           "(%s): initialisers of the other locals (arrays, say) are invisible to the read/write-set computation, so a "
+           "function that reads a variable only there counts as reading nothing" % ", ".join(sorted(set(preds))[:4]),
+           "%s:%s" % (fn["file"], fn["line"]))
